@@ -2,6 +2,7 @@ import LzmaVerif.Proofs.Stream
 import LzmaVerif.Proofs.Split
 import LzmaVerif.Proofs.LzDecoder
 import LzmaVerif.Proofs.EncWindow
+import LzmaVerif.Proofs.RcNormalize
 /-!
 # C07 — results do not depend on how callers split writes, flushes and reads
 
@@ -19,8 +20,8 @@ buffer sizes incl. zero-length and one-byte buffers, EVERY pattern of short read
 
 The streaming models (`Model/Stream.lean`, `Model/BcjStream.lean`) are run against the real
 `BCJWriter`/`BCJReader` on every check (random partitions, buffer schedules and short reads).
-Not yet covered by a theorem (oracle + correspondence only): independence of the LZMA/LZMA2 readers'
-ring buffer from the read sizes and of the encoder's window from the write partition.
+* `rc_call_boundaries_unobservable` – the normalisations with which `LZMADecoder::decode` closes every call change
+  neither the decisions nor the bytes consumed, for every segmentation into calls.
 -/
 namespace LzmaVerif.Props.C07
 open LzmaVerif
@@ -85,6 +86,35 @@ theorem lz_reader_partition_free (dict : Nat) (preset : Option (List Nat)) (syms
     (LzDecoder.readAll (LzDecoder.new dict preset) sizes₁ syms).map (·.1) =
       (LzDecoder.readAll (LzDecoder.new dict preset) sizes₂ syms).map (·.1) :=
   LzDecoder.readAll_partition_free dict preset syms sizes₁ sizes₂ hd hadm hsum
+
+/-! ## The LZMA readers: where a `read` call ends does not matter to the range decoder
+
+`LZMADecoder::decode` closes every call with `rc.normalize()`; the calls end where the caller's buffers (and the
+wrap-around of the dictionary buffer) make them end.  `rc_call_boundaries_unobservable`: for EVERY segmentation of the
+decoding into calls (a list of decision programs), EVERY table of probabilities in range and EVERY decoder state a
+decoder operation can leave (`2^16 ≤ range`), the run with a normalisation after each call and the run without any
+take the same decisions, adapt the probabilities identically and - closed by the final normalisation - end in the same
+decoder state: the same source bytes consumed, the same count of bytes requested past the end of the source.  With
+`lz_reader_partition_free` (the dictionary hands out the same bytes for every list of read sizes) this covers both
+mechanisms through which the buffer sizes reach the LZMA decoder.  What remains schedule dependent in the real reader:
+how much of the decoded data has been handed out when an error is reported (the bytes decoded during the failing
+`read` call are dropped with it); the error CLASS is not (oracle `error-class-depends-on-read-sizes`, C04/C05/C06).
+Not proved: the composition of the two theorems into one statement about a reader model with the read schedule as
+input (the whole-stream model `Lzma.decodeRaw` has no calls). -/
+
+theorem rc_call_boundaries_unobservable {α : Type} (segs : List (Prog α)) (ps : Rc.Probs) (d : Rc.Dec)
+    (hps : Rc.ProbsOk ps) (hd : Rc.RangeOk d) :
+    (Prog.segRun true segs ps d).1 = (Prog.segRun false segs ps d).1 ∧
+    (Prog.segRun true segs ps d).2.1 = (Prog.segRun false segs ps d).2.1 ∧
+    (Prog.segRun true segs ps d).2.2.normalize = (Prog.segRun false segs ps d).2.2.normalize :=
+  Prog.segRun_eq segs ps d d hps hd (Or.inl rfl)
+
+/-- non-vacuity: the hypotheses hold for a concrete state and two one-bit calls, and the normalisation between the
+    calls really reads a byte there (one byte less is left after the first call) -/
+example : Rc.RangeOk Prog.exDec ∧
+    (Prog.segRun true [Prog.exSeg] #[1024] Prog.exDec).2.2.inp.length + 1
+      = (Prog.segRun false [Prog.exSeg] #[1024] Prog.exDec).2.2.inp.length :=
+  ⟨by unfold Rc.RangeOk Prog.exDec; decide, by decide⟩
 
 /-! ## The LZMA writers: what the search can see does not depend on the write partition
 
